@@ -4,6 +4,8 @@ import (
 	"encoding/json"
 	"errors"
 	"io"
+	"reflect"
+	"strconv"
 
 	p "github.com/Oudwins/zog/internals"
 	"github.com/Oudwins/zog/zconst"
@@ -48,7 +50,12 @@ func Decode(r io.Reader) p.DpFactory {
 		}
 		var m map[string]any
 		decod := json.NewDecoder(r)
+		// numbers are decoded as json.Number first: storing every number in a float64 silently changes the integers it cannot hold
+		decod.UseNumber()
 		err := decod.Decode(&m)
+		if err == nil {
+			_, err = restoreNumbers(m)
+		}
 		if err != nil {
 			return nil, &p.ZogIssue{Code: zconst.IssueCodeInvalidJSON, Err: err}
 		}
@@ -57,4 +64,39 @@ func Decode(r io.Reader) p.DpFactory {
 		}
 		return p.NewMapDataProvider(m, &jsonTag), nil
 	}
+}
+
+// restoreNumbers turns the json.Number values of a decoded document back into float64 (what encoding/json produces by default),
+// except integer literals that a float64 cannot hold exactly (beyond 2^53): those become an int, so that they reach integer
+// schemas unchanged.
+func restoreNumbers(v any) (any, error) {
+	switch x := v.(type) {
+	case map[string]any:
+		for k, e := range x {
+			n, err := restoreNumbers(e)
+			if err != nil {
+				return nil, err
+			}
+			x[k] = n
+		}
+	case []any:
+		for i, e := range x {
+			n, err := restoreNumbers(e)
+			if err != nil {
+				return nil, err
+			}
+			x[i] = n
+		}
+	case json.Number:
+		f, err := x.Float64()
+		if err != nil {
+			// out of the float64 range: the error encoding/json reports for such a number by default
+			return nil, &json.UnmarshalTypeError{Value: "number " + x.String(), Type: reflect.TypeOf(float64(0))}
+		}
+		if i, ierr := strconv.ParseInt(x.String(), 10, strconv.IntSize); ierr == nil && (f >= 1<<63 || f < -(1<<63) || int64(f) != i) {
+			return int(i), nil
+		}
+		return f, nil
+	}
+	return v, nil
 }
